@@ -308,7 +308,9 @@ func checkC20(env *fw.Env, c C20Case) *fw.Failure {
 			classes = append(classes, "completed")
 		}
 	}
-	s.Srv.Close()
+	if msg := s.CloseChecked(); msg != "" {
+		return fw.Failf("C20/server-close-panics-waitgroup-reused", "Server.Close panicked after the calls had returned: %s; case %+v", msg, c)
+	}
 	// resources: goroutines back to the baseline, iterators stopped
 	var now int
 	var dump string
